@@ -12,32 +12,93 @@ from ..engine.report import Check
 
 def _t() -> Dict[str, List[Tuple[str, str, Callable[[Check], object]]]]:
     from . import c01, c02, c03, c04, c05, c07, c09, c11, c13
-    from .common import rule_eq
+    from .common import rule_eq, rule_uto_apply
     PE = "skepticoin.datatypes.PowEvidence"
+    from . import c08, c12, c17, c18
+    MSG = lambda ck: c07.r07_1_2(ck, False, "R07.1")          # noqa  (all codecs, wire messages included)
+    CONSENSUS_CODECS = lambda ck: c07.r07_1_2(ck, True, "R07.1")   # noqa
     return {
-        "C01": [("R03.2", "the unspent set a spend is checked against is built from the block's PARENT's set", c03.r03_2)],
-        "C02": [("R09.flow", "a relayed block is served as validated only after in-state validation completed", c09.r09_flow)],
+        "C01": [("R03.2", "the unspent set a spend is checked against is built from the block's PARENT's set", c03.r03_2),
+                ("R08.1", "after a restart the ledger is rebuilt from rows that mirror what was written", c08.r08_1)],
+        "C02": [("R09.flow", "a relayed block is served as validated only after in-state validation completed", c09.r09_flow),
+                ("R08.1", "after a restart the ledger is rebuilt from rows that mirror what was written", c08.r08_1),
+                ("R07.1", "the header fields that tell solicited from unsolicited data are decoded as written", MSG)],
+        "C03": [("R05.6", "a block's height is its parent's plus one (so a reward transaction cannot repeat an ancestor's)", c05.r05_6),
+                ("R08.7", "row collectors of the store reader are per transaction", c08.r08_7)],
         "C04": [("R13.3", "the chain manager stores every state it is given (head changes are not skipped)", c13.r13_3),
-                ("R05.7", "a fork block's evidence is recomputed from ITS ancestors (fork blocks stay acceptable)", c05.r05_7)],
+                ("R05.7", "a fork block's evidence is recomputed from ITS ancestors (fork blocks stay acceptable)", c05.r05_7),
+                ("R05.2", "a fork block's timestamp is compared with ITS parent's", c05.r05_2),
+                ("R12.1", "the state the miner builds on and pushes back is the latest served state", c12.r12_1),
+                ("R09.flow", "a delivered block that is new and connectable is adopted or refused, never dropped", c09.r09_flow)],
         "C05": [("R06.2", "evidence comparison is by content of every field", lambda ck: rule_eq(ck, "R06.2", PE, ["summary_hash", "chain_sample", "block_hash"], "")),
-                ("R04.4", "the ancestor index the target and the chain sample are read from is the parent's index plus the block", c04.r04_4)],
+                ("R04.4", "the ancestor index the target and the chain sample are read from is the parent's index plus the block", c04.r04_4),
+                ("R12.1", "the candidate the worker hashes is the one the watcher assembled for it", c12.r12_1)],
+        "C06": [("R09.flow", "a tampered block that is refused does not stay buffered for the store", c09.r09_flow),
+                ("R09.5", "the buffer that is cleared on refusal is the buffer that was written", c09.r09_5)],
         "C08": [("R07.6", "variable-length integers written to blobs decode canonically", c07.r07_6),
-                ("R09.flow", "the relay handler clears the write buffer when it rejects a buffered block", c09.r09_flow)],
+                ("R09.flow", "the relay handler clears the write buffer when it rejects a buffered block", c09.r09_flow),
+                ("R09.5", "blocks handed to the disk interface reach the store's buffer, one by one", c09.r09_5),
+                ("R04.2", "the head recomputed on reload is chosen by the same measure of work", c04.r04_2)],
         "C09": [("R13.3", "set_coinstate stores the adopted state and the roll-back target", c13.r13_3),
-                ("R05.7", "valid relayed blocks on a fork pass the evidence check (own ancestors)", c05.r05_7)],
+                ("R05.7", "valid relayed blocks on a fork pass the evidence check (own ancestors)", c05.r05_7),
+                ("R01.10", "applying a block removes exactly the spent outputs (a re-spend fails to apply)", lambda ck: rule_uto_apply(ck, "R01.10")),
+                ("R02.3", "overspend check after the existence check (a missing input is a rejection, not an error)", c02.r02_3),
+                ("R03.2", "a fork block is applied to its parent's ledger", c03.r03_2)],
         "C10": [("R03.2", "states built during download are built from each block's parent", c03.r03_2),
                 ("R04.4", "the height index used to answer get-blocks is the head's", c04.r04_4),
-                ("P7", "a block-sized data message fits the frame limit", c11.check_receive)],
-        "C12": [("R13.3", "adopting the found block stores it as the served state, then cleans the pool against it", c13.r13_3)],
+                ("P7", "a block-sized data message fits the frame limit", c11.check_receive),
+                ("R09.8", "transactions and blocks are relayed to every active peer", c09.r09_8),
+                ("R09.10", "a peer that greeted is an active peer", c09.r09_10)],
+        "C11": [("R07.1", "every message an unmodified peer sends decodes (field widths and signedness agree)", MSG),
+                ("R18.5", "list lengths on the wire use the encoding deployed nodes use", c18.r18_5)],
+        "C12": [("R13.3", "adopting the found block stores it as the served state, then cleans the pool against it", c13.r13_3),
+                ("R09.10", "every peer that greeted receives the found block", c09.r09_10)],
         "C13": [("R01.4", "admission checks every input's signature over the whole transaction", c01.r01_3_4),
-                ("R01.7", "admission rejects a reference used twice across the pool candidate set", c01.r01_7)],
+                ("R01.7", "admission rejects a reference used twice across the pool candidate set", c01.r01_7),
+                ("R01.6", "a signature is valid only for the message it signs", c01.r01_6)],
         "C14": [("R03.4", "the per-key index the wallet selects from agrees with the unspent set", c03.r03_4),
-                ("R03.3", "per-key balances at the head are the replay of the head's chain", c03.r03_3)],
+                ("R03.3", "per-key balances at the head are the replay of the head's chain", c03.r03_3),
+                ("R01.7", "two outputs of one earlier transaction are two different references", c01.r01_7)],
         "C16": [("R02.1", "the reward check uses subsidy(height of the block)", c02.r02_1),
-                ("R02.4", "every output total is range-checked", c02.r02_4)],
-        "C18": [("R09.flow", "a block refused by the checkpoint comparison is rolled back and not stored", c09.r09_flow)],
-        "C19": [("R07.1", "the greeting's nonce / port fields are written and read with the same widths", lambda ck: c07.r07_1_2(ck, False, "R07.1"))],
+                ("R02.4", "every output total is range-checked", c02.r02_4),
+                ("R07.1", "amounts are unsigned on the wire", CONSENSUS_CODECS)],
+        "C17": [("R05.8", "the header the miner assembles commits to the list it is assembled with", c05.r05_8),
+                ("R09.flow", "every delivered block is structurally validated (commitment compared) before it is applied", c09.r09_flow)],
+        "C18": [("R09.flow", "a block refused by the checkpoint comparison is rolled back and not stored", c09.r09_flow),
+                ("R09.5", "the buffer that is cleared on refusal is the buffer that was written", c09.r09_5),
+                ("R05.6", "height linkage holds for the first block after genesis too", c05.r05_6)],
+        "C19": [("R07.1", "the greeting's nonce / port fields are written and read with the same widths", MSG)],
+        "C20": [("R01.7", "structural validation of delivered transactions", c01.r01_7),
+                ("R02.4", "amount ranges of delivered transactions", c02.r02_4),
+                ("R17.1", "the commitment comparison is on every path of structural block validation", c17.r17_1)],
     }
+
+
+def _rejections(prefixes, what):   # type: ignore
+    from .common import rule_no_new_rejections
+    return lambda ck: rule_no_new_rejections(ck, "RX.2", prefixes, what)
+
+
+RX2 = {
+    "C04": (["skepticoin.networking.remote_peer.ConnectedRemotePeer.handle_block_received", "skepticoin.coinstate.", "skepticoin.consensus.validate_block"],
+            "a competing block that is valid is not refused or ignored"),
+    "C05": (["skepticoin.consensus.", "skepticoin.datatypes."], "a block the node assembled itself is not refused by its own validators"),
+    "C09": (["skepticoin.networking.remote_peer.ConnectedRemotePeer.handle_block_received", "skepticoin.networking.remote_peer.ConnectedRemotePeer.handle_data",
+             "skepticoin.consensus.", "skepticoin.coinstate."], "a valid relayed block is adopted, not refused or ignored"),
+    "C10": (["skepticoin.networking.remote_peer.", "skepticoin.networking.messages.", "skepticoin.serialization.", "skepticoin.datatypes."],
+            "what honest peers send during synchronisation is decoded and handled, not refused"),
+    "C11": (["skepticoin.networking.remote_peer.MessageReceiver.", "skepticoin.networking.messages.", "skepticoin.serialization."],
+            "a well-formed frame is delivered, not refused"),
+    "C12": (["skepticoin.consensus.", "skepticoin.datatypes.", "skepticoin.coinstate.", "skepticoin.signing."],
+            "the miner's own block passes the node's own validation"),
+    "C14": (["skepticoin.consensus.validate_non_coinbase", "skepticoin.consensus.validate_signature", "skepticoin.consensus.validate_no_duplicate",
+             "skepticoin.consensus.validate_sashimi", "skepticoin.wallet.", "skepticoin.datatypes."],
+            "a spend the wallet built passes transaction validation"),
+    "C13": (["skepticoin.consensus.validate_non_coinbase", "skepticoin.consensus.validate_signature", "skepticoin.consensus.validate_no_duplicate",
+             "skepticoin.consensus.validate_sashimi"], "a valid transaction is admitted to the pool"),
+    "C18": (["skepticoin.consensus.", "skepticoin.pow.", "skepticoin.datatypes.", "skepticoin.signing.", "skepticoin.serialization."],
+            "the real network's blocks keep passing full validation"),
+}
 
 
 def run(ck: Check) -> None:
@@ -46,3 +107,7 @@ def run(ck: Check) -> None:
         if rule in have or (rule == "R09.flow" and "R09.3" in have) or (rule == "P7" and "P7" in have):
             continue
         ck.run(rule, what + " (shared premise)", (lambda f=fn: f(ck)))
+    if ck.prop in RX2:
+        pre, what = RX2[ck.prop]
+        fn = _rejections(pre, what)
+        ck.run("RX.2", what + " (no new rejection conditions)", lambda: fn(ck))
